@@ -94,6 +94,8 @@ class Gen(object):
                 out.append(dict(k='var', t=t, s=v, name=v))
         if self.has_self and (kl in (None, 'A')):
             out.append(dict(k='self', t=inst('A'), s='self'))
+        if kl in (None, 'A') and any(p == 'pa' for p, _ in self.params):
+            out.append(dict(k='param', t=inst('A'), s='param.pa', name='pa'))
         if self.where_class and kl in (None, self.where_class):
             out.append(dict(k='selected', t=inst(self.where_class), s='selected'))
         return out
